@@ -87,6 +87,7 @@ def w_cmd_wrap(s: str) -> bool:
 
 NAMES = ['a', 'd/a', 'b']     # two projects share a basename
 RUNS = param('RUNS', 3)
+SUF = param('SUF', ' z')
 
 
 class _MemFile:
@@ -287,5 +288,5 @@ def x_split_vs_runtime(t: str) -> bool:
     pre: len(t) == N and no_ctl(t) and '""' not in t
     post: _
     """
-    line = 'prog ' + t + ' z'
+    line = 'prog ' + t + SUF
     return R(wshell.split(line) == rmsvcrt.argv(line))
